@@ -1,5 +1,5 @@
 #!/bin/bash
-# tools/verify_demo.sh <seeded-dir> <demo file> <package dir> <test regex>
+# tools/verify_demo.sh <seeded-dir> <demo file[,file...]> <package dir> <test regex>
 # runs the demonstration without and with the change in a scratch worktree of /repo HEAD
 set -u
 cd "$(dirname "$0")/.."
@@ -8,9 +8,9 @@ export GOFLAGS=-mod=mod GOPROXY=off GOSUMDB=off GOTOOLCHAIN=local
 WT=/tmp/demo-$(basename "$D")
 git -C /repo worktree remove --force "$WT" >/dev/null 2>&1
 git -C /repo worktree add -f --detach "$WT" HEAD >/dev/null 2>&1
-cp "$D/$F" "$WT/$P/zz_seed_demo_test.go"
-( cd "$WT" && go test -vet=off -count=1 -run "$R" "./$P/" >/tmp/demo-without.log 2>&1 ); a=$?
+i=0; for f in $(echo "$F" | tr "," " "); do cp "$D/$f" "$WT/$P/zz_seed_demo${i}_test.go"; i=$((i+1)); done
+( cd "$WT" && go test -vet=off -count=1 -run "$R" "./$P/" >/tmp/demo-without-$(basename $D).log 2>&1 ); a=$?
 git -C "$WT" apply "$PWD/$D/patch.diff"
-( cd "$WT" && go test -vet=off -count=1 -run "$R" "./$P/" >/tmp/demo-with.log 2>&1 ); b=$?
-echo "$(basename $D): without change rc=$a ($(tail -1 /tmp/demo-without.log | cut -c1-60)) ; with change rc=$b ($(grep -m1 -- '--- FAIL' /tmp/demo-with.log | cut -c1-80))"
+( cd "$WT" && go test -vet=off -count=1 -run "$R" "./$P/" >/tmp/demo-with-$(basename $D).log 2>&1 ); b=$?
+echo "$(basename $D): without change rc=$a ($(tail -1 /tmp/demo-without-$(basename $D).log | cut -c1-60)) ; with change rc=$b ($(grep -m1 -- '--- FAIL' /tmp/demo-with-$(basename $D).log | cut -c1-80))"
 git -C /repo worktree remove --force "$WT"
